@@ -4,6 +4,13 @@
 // hook connection carrying the real cipher of a suite, sizes of the datagrams per write),
 // fl (buffered flight + flush), e2e (real handshakes over an in-memory recording PacketConn
 // for the four suites and several PMTUs, then WriteTo / ReadFrom). Without -phase all run.
+//
+// The *Config that carries the configured PMTU reaches the connection in every way the API
+// offers (token cfg= / ccfg= / scfg=, absent = c0):
+//
+//	c<k>        handed to Client / Server after k Config.Clone() calls
+//	g<k>l<lp>   returned, after k Clone() calls, by GetConfigForClient of a listener Config
+//	            whose own PMTU is lp (server side only)
 package main
 
 import (
@@ -70,6 +77,47 @@ func payload(n int) []byte {
 	return b
 }
 
+// reach builds the configuration(s) for a reach token from the configured `base`:
+// the *Config to hand to Client/Server and whether it is a listener configuration whose
+// GetConfigForClient returns the derived one. `listener` makes a fresh listener configuration.
+func reach(tok string, base *dtlcp.Config, listener func() *dtlcp.Config) (*dtlcp.Config, bool, bool) {
+	if tok == "" {
+		return base, false, true
+	}
+	clones := func(k int) *dtlcp.Config {
+		c := base
+		for i := 0; i < k; i++ {
+			c = c.Clone()
+		}
+		return c
+	}
+	switch tok[0] {
+	case 'c':
+		k, err := strconv.Atoi(tok[1:])
+		if err != nil || k < 0 || k > 64 {
+			return nil, false, false
+		}
+		return clones(k), false, true
+	case 'g':
+		parts := strings.SplitN(tok[1:], "l", 2)
+		if len(parts) != 2 {
+			return nil, false, false
+		}
+		k, err1 := strconv.Atoi(parts[0])
+		lp, err2 := strconv.Atoi(parts[1])
+		if err1 != nil || err2 != nil || k < 0 || k > 64 {
+			return nil, false, false
+		}
+		l := listener()
+		l.PMTU = lp
+		// the application derives the per-client configuration inside the callback, as the
+		// documentation of GetConfigForClient suggests
+		l.GetConfigForClient = func(*dtlcp.ClientHelloInfo) (*dtlcp.Config, error) { return clones(k), nil }
+		return l, true, true
+	}
+	return nil, false, false
+}
+
 func execWR(desc string) string {
 	su, _ := hx.KV(desc, "suite")
 	pmtu := hx.KVInt(desc, "pmtu")
@@ -77,7 +125,13 @@ func execWR(desc string) string {
 	var out string
 	p := hx.Guard(func() {
 		s := newSink()
-		tx, err := dtlcp.VerifNewTx(s, s.remote, hookSuite[su], pmtu)
+		rt, _ := hx.KV(desc, "cfg")
+		cfg, forClient, ok := reach(rt, &dtlcp.Config{PMTU: pmtu}, func() *dtlcp.Config { return &dtlcp.Config{} })
+		if !ok {
+			out = "badcase=1"
+			return
+		}
+		tx, err := dtlcp.VerifNewTxCfg(s, s.remote, hookSuite[su], cfg, forClient)
 		if err != nil {
 			out = "err=setup"
 			return
@@ -226,10 +280,29 @@ func execE2E(desc string) string {
 		ccfg.CipherSuites = []uint16{id}
 		scfg.CipherSuites = []uint16{id}
 		ccfg.PMTU, scfg.PMTU = cp, sp
+		serverAuth := func(cf *dtlcp.Config) {
+			if strings.HasPrefix(su, "ecdhe") {
+				cf.ClientAuth = dtlcp.RequireAndVerifyClientCert
+				cf.ClientCAs = std.Root.Pool
+			}
+		}
 		if strings.HasPrefix(su, "ecdhe") {
 			ccfg.Certificates = []dtlcp.Certificate{pair.DCert(std.CliSig), pair.DCert(std.CliEnc)}
-			scfg.ClientAuth = dtlcp.RequireAndVerifyClientCert
-			scfg.ClientCAs = std.Root.Pool
+		}
+		serverAuth(scfg)
+		// how the configured objects reach the two connections
+		crt, _ := hx.KV(desc, "ccfg")
+		srt, _ := hx.KV(desc, "scfg")
+		ccfg, cfc, okc := reach(crt, ccfg, func() *dtlcp.Config { return pair.DClient() })
+		scfg, _, oks := reach(srt, scfg, func() *dtlcp.Config {
+			l := pair.DServer()
+			l.CipherSuites = []uint16{id}
+			serverAuth(l)
+			return l
+		})
+		if !okc || !oks || cfc {
+			out = "badcase=1"
+			return
 		}
 		c, s, ce, se, r := pair.DTLCP(ccfg, scfg, nil)
 		defer ce.Close()
@@ -343,6 +416,39 @@ func genWR(o hx.Opts, emit func(string)) {
 			}
 		}
 	}
+	// the same write path when the configured *Config reached the connection through
+	// Clone() and / or GetConfigForClient (listener PMTU below, equal to, above the configured one)
+	reaches := []string{"c1", "c2", "g0l0", "g1l0", "g1l9000", "g2l300"}
+	rpm := []int{0, -1, 60, 100, 576, 1200, 1399, 1400, 1401, 1500, 9000, 17000}
+	if thorough {
+		reaches = append(reaches, "c3", "c7", "g0l1400", "g0l576", "g3l0", "g1l20000", "g1l1")
+		rpm = pmtus
+	}
+	for _, su := range []string{"none", "gcm", "cbc"} {
+		for _, rt := range reaches {
+			for _, p := range rpm {
+				eff := p
+				if eff <= 0 {
+					eff = 1400
+				}
+				m := eff - overhead(su)
+				if m < 1 {
+					m = 1
+				}
+				if m > 16384 {
+					m = 16384
+				}
+				// around the configured maximum AND around the default's maximum (what a
+				// connection that lost the configured value would use)
+				d := 1400 - overhead(su)
+				for _, n := range []int{1, m - 16, m - 1, m, m + 1, m + 17, 2*m + 1, d, d + 1} {
+					if n > 0 && n <= 40000 {
+						emit(fmt.Sprintf("kind=wr suite=%s cfg=%s pmtu=%d n=%d", su, rt, p, n))
+					}
+				}
+			}
+		}
+	}
 	r := hx.NewRand(o.Seed)
 	cnt := 600 * o.Scale
 	if thorough {
@@ -359,6 +465,21 @@ func genWR(o hx.Opts, emit func(string)) {
 			n = 35000
 		}
 		emit(fmt.Sprintf("kind=wr suite=%s pmtu=%d n=%d", su, p, n))
+	}
+	// seeded random derivations: k clones, optionally behind a listener with a random PMTU
+	r2 := hx.NewRand(o.Seed + 7)
+	for i := 0; i < cnt/2; i++ {
+		su := hx.Pick(r2, []string{"none", "gcm", "cbc"})
+		p := 1 + r2.Intn(2000)
+		if r2.Chance(15) {
+			p = r2.Intn(3) - 1
+		}
+		rt := fmt.Sprintf("c%d", 1+r2.Intn(4))
+		if r2.Chance(50) {
+			rt = fmt.Sprintf("g%dl%d", r2.Intn(4), r2.Intn(3000))
+		}
+		n := 1 + r2.Intn(2*p+1500)
+		emit(fmt.Sprintf("kind=wr suite=%s cfg=%s pmtu=%d n=%d", su, rt, p, n))
 	}
 }
 
@@ -435,6 +556,28 @@ func genE2E(o hx.Opts, emit func(string)) {
 				st = 36000
 			}
 			emit(fmt.Sprintf("kind=e2e suite=%s cp=%d sp=%d sizes=%s rsizes=%s stream=%d", su, p[0], p[1], zs, rzs, st))
+		}
+	}
+	// configurations derived by Clone() and / or selected by GetConfigForClient: the configured
+	// PMTU (cp / sp) must be the one in force whatever the listener's own PMTU is
+	type via struct {
+		cc, sc string
+		cp, sp int
+	}
+	vs := []via{{"c1", "c1", 1200, 1200}, {"c2", "c1", 576, 1400}, {"c0", "g0l0", 1400, 600}, {"c1", "g1l0", 600, 1200},
+		{"c0", "g1l9000", 0, 576}, {"c1", "g2l300", 9000, 1200}, {"c1", "g1l1200", 400, 1200}}
+	if thorough {
+		vs = append(vs, via{"c3", "c5", 300, 2000}, via{"c1", "g0l576", 20000, 9000}, via{"c0", "g3l0", 1400, 250},
+			via{"c2", "g1l20000", 1500, 1501}, via{"c1", "c1", 0, 0}, via{"c1", "g1l0", 17000, 17000}, via{"c4", "g4l1400", 250, 400})
+	}
+	for _, su := range suites {
+		for _, v := range vs {
+			zs, st := boundary(su, v.cp)
+			rzs, _ := boundary(su, v.sp)
+			if st > 36000 {
+				st = 36000
+			}
+			emit(fmt.Sprintf("kind=e2e suite=%s ccfg=%s scfg=%s cp=%d sp=%d sizes=%s rsizes=%s stream=%d", su, v.cc, v.sc, v.cp, v.sp, zs, rzs, st))
 		}
 	}
 }
